@@ -17,7 +17,7 @@ ASSUMPTIONS = [
 ]
 EVAL = ['runs_two_chunk', 'runs_one_byte', 'runs_random_partition', 'replays']
 DISTINCT = ['input']
-REQUIRED = ['inputs', 'inputs_accepted', 'inputs_other', 'runs_two_chunk', 'runs_one_byte', 'runs_random_partition', 'scenarios', 'replays', 'runs_faulted']
+REQUIRED = ['inputs', 'inputs_accepted', 'inputs_other', 'runs_two_chunk', 'runs_one_byte', 'runs_random_partition', 'scenarios', 'replays', 'runs_faulted', 'runs_inserted_alert']
 EXHAUSTIVE = 'every two-chunk split point of every decoder input'
 NW = 16
 
